@@ -22,6 +22,9 @@ pos("asm-inlined-div10w-register",S,"	ADCQ R13, DX		// q1 + n1 + carry\n	MOVQ DX
 pos("asm-mp-immediate",S,"	// m'        = 0xd83c94fb6d2ac34a\n	// n2, n10   = n1, n0\n	MOVQ n1+0(FP), R8\n	MOVQ n0+8(FP), R9\n	MOVQ R9, BX\n	SARQ $63, BX		// _n1\n	MOVQ R8, AX\n	SUBQ BX, AX			// AX == n1-_n1\n	MOVQ $0xd83c94fb6d2ac34a, CX","	// m'        = 0xd83c94fb6d2ac34a\n	// n2, n10   = n1, n0\n	MOVQ n1+0(FP), R8\n	MOVQ n0+8(FP), R9\n	MOVQ R9, BX\n	SARQ $63, BX		// _n1\n	MOVQ R8, AX\n	SUBQ BX, AX			// AX == n1-_n1\n	MOVQ $0xd83c94fb6d2ac34b, CX","ASM","immediate/mP")
 pos("asm-define-dmax",S,"#define _DMax 9999999999999999999","#define _DMax 9999999999999999998","ASM","define/_DMax")
 pos("asm-frame-offset",S,"	MOVQ y+48(FP), CX	// c = y\n	MOVQ z+0(FP), R10\n\n	MOVQ $0, SI			// i = 0","	MOVQ y+40(FP), CX	// c = y\n	MOVQ z+0(FP), R10\n\n	MOVQ $0, SI			// i = 0","ASM","frame/·add10VW",quick=True)
+pos("asm-carry-first-element-compare-moved",S,"	LEAQ -1(DX), AX\n	SBBQ BX, BX\n	CMPQ AX, CX\n	SBBQ AX, AX\n	ORQ AX, BX","	LEAQ -1(DX), AX\n	CMPQ AX, CX\n	SBBQ BX, BX\n	SBBQ AX, AX\n	ORQ AX, BX","ASM","carry/·add10VW",quick=True,note="seed r2-C07B: the hardware carry of x[0]+y is overwritten, and the decimal carry is materialised twice")
+pos("asm-carry-first-element-compare-deleted",S,"	LEAQ -1(DX), AX\n	SBBQ BX, BX\n	CMPQ AX, CX\n	SBBQ AX, AX\n	ORQ AX, BX","	LEAQ -1(DX), AX\n	SBBQ BX, BX\n	SBBQ AX, AX\n	ORQ AX, BX","ASM","carry/·add10VW",note="clause (a): the second materialisation reads the carry the first one left")
+neg("asm-carry-first-element-registers-renamed",S,"	LEAQ -1(DX), AX\n	SBBQ BX, BX\n	CMPQ AX, CX\n	SBBQ AX, AX\n	ORQ AX, BX\n	MOVQ DX, AX\n	ANDQ BX, AX\n	SUBQ AX, CX\n	NEGQ BX			// convert to C = 0/1\n	MOVQ CX, 0(R10)(SI*8)\n	MOVQ BX, CX		// save c","	LEAQ -1(DX), AX\n	SBBQ R11, R11\n	CMPQ AX, CX\n	SBBQ AX, AX\n	ORQ AX, R11\n	MOVQ DX, AX\n	ANDQ R11, AX\n	SUBQ AX, CX\n	NEGQ R11			// convert to C = 0/1\n	MOVQ CX, 0(R10)(SI*8)\n	MOVQ R11, CX		// save c",["ASM"])
 pos("asm-store-through-source",S,"CLoop:\n	MOVQ 0(R8)(SI*8), AX\n	MOVQ AX, 0(R10)(SI*8)\n	ADDQ $1, SI","CLoop:\n	MOVQ 0(R8)(SI*8), AX\n	MOVQ AX, 0(R8)(SI*8)\n	ADDQ $1, SI","ASM","stores/decCpy")
 pos("asm-kernel-writes-source",S,"	MOVQ R9, 0(R10)(SI*8)\n	ADDQ $1, SI\n	CMPQ SI, DI\n	JL L9","	MOVQ R9, 0(R8)(SI*8)\n	ADDQ $1, SI\n	CMPQ SI, DI\n	JL L9","ASM","stores/·shr10VU")
 pos("asm-result-not-stored",S,"E2:	NEGQ CX\n	MOVQ CX, c+72(FP)	// return c\n	RET","E2:	NEGQ CX\n	RET","ASM","result/·sub10VV")
